@@ -115,6 +115,11 @@ func SymOf(v ssa.Value) *Sym {
 	return symEval(v, nil, 0, map[*ssa.Function]bool{})
 }
 
+// SymOfEnv evaluates v with the given parameter bindings.
+func SymOfEnv(v ssa.Value, env map[*ssa.Parameter]*Sym) *Sym {
+	return symEval(v, env, 0, map[*ssa.Function]bool{})
+}
+
 // SymAtCall evaluates v, a value of the callee's frame, as seen from one call of the callee: the callee's parameters
 // stand for the arguments of that call, evaluated in the caller's frame.
 func SymAtCall(v ssa.Value, callee *ssa.Function, call ssa.CallInstruction) *Sym {
@@ -162,8 +167,18 @@ func symEval(v ssa.Value, env map[*ssa.Parameter]*Sym, depth int, active map[*ss
 		}
 		switch a := x.X.(type) {
 		case *ssa.FieldAddr:
+			if g, isG := a.X.(*ssa.Global); isG {
+				if st := globalFieldStore(g, a.Field); st != nil {
+					return symEval(st.Val, nil, depth+1, active)
+				}
+			}
 			base := symAddr(a.X, env, depth+1, active)
 			return symField(base, fieldName(a.X.Type(), a.Field))
+		case *ssa.Global:
+			// a package-level struct copied whole: its fields are what the initialiser stored
+			if s := globalStructSym(a, depth+1, active); s != nil {
+				return s
+			}
 		case *ssa.Alloc:
 			if s := symCell(a, env, depth+1, active); s != nil {
 				return s
@@ -340,3 +355,122 @@ func (s *Sym) ConstInt() (int64, bool) {
 
 // IsVal: s is the opaque root-frame value v.
 func (s *Sym) IsVal(v ssa.Value) bool { return s != nil && s.Op == "val" && s.Val == v }
+
+// globalWrites collects every store to package-level variable g (whole, or into one of its fields) in g's package.
+type globalWrites struct {
+	whole  []*ssa.Store
+	fields map[int][]*ssa.Store
+}
+
+var globalWritesMemo = map[*ssa.Global]*globalWrites{}
+
+func writesOf(g *ssa.Global) *globalWrites {
+	if w, ok := globalWritesMemo[g]; ok {
+		return w
+	}
+	w := &globalWrites{fields: map[int][]*ssa.Store{}}
+	globalWritesMemo[g] = w
+	if g.Pkg == nil {
+		return w
+	}
+	seen := map[*ssa.Function]bool{}
+	var scan func(fn *ssa.Function)
+	scan = func(fn *ssa.Function) {
+		if fn == nil || seen[fn] {
+			return
+		}
+		seen[fn] = true
+		for _, b := range fn.Blocks {
+			for _, in := range b.Instrs {
+				st, ok := in.(*ssa.Store)
+				if !ok {
+					continue
+				}
+				if st.Addr == ssa.Value(g) {
+					w.whole = append(w.whole, st)
+				} else if fa, isFA := st.Addr.(*ssa.FieldAddr); isFA && fa.X == ssa.Value(g) {
+					w.fields[fa.Field] = append(w.fields[fa.Field], st)
+				}
+			}
+		}
+		for _, a := range fn.AnonFuncs {
+			scan(a)
+		}
+	}
+	for _, m := range g.Pkg.Members {
+		switch x := m.(type) {
+		case *ssa.Function:
+			scan(x)
+		case *ssa.Type:
+			for _, tt := range []types.Type{x.Type(), types.NewPointer(x.Type())} {
+				ms := g.Pkg.Prog.MethodSets.MethodSet(tt)
+				for i := 0; i < ms.Len(); i++ {
+					if fn := g.Pkg.Prog.MethodValue(ms.At(i)); fn != nil && fn.Pkg == g.Pkg {
+						scan(fn)
+					}
+				}
+			}
+		}
+	}
+	return w
+}
+
+// globalFieldStore: the only store into field idx of package-level struct variable g, when it happens in the
+// package initialiser and the variable is never assigned whole.
+func globalFieldStore(g *ssa.Global, idx int) *ssa.Store {
+	w := writesOf(g)
+	if g.Pkg == nil || len(w.whole) > 0 || len(w.fields[idx]) != 1 {
+		return nil
+	}
+	st := w.fields[idx][0]
+	if st.Parent() != g.Pkg.Func("init") {
+		return nil
+	}
+	return st
+}
+
+// globalStructSym: the struct value of a package-level struct variable that only its package initialiser writes:
+// assigned whole once from a literal, or field by field once each.
+func globalStructSym(g *ssa.Global, depth int, active map[*ssa.Function]bool) *Sym {
+	if g.Pkg == nil {
+		return nil
+	}
+	pt, ok := g.Type().Underlying().(*types.Pointer)
+	if !ok {
+		return nil
+	}
+	st, ok := pt.Elem().Underlying().(*types.Struct)
+	if !ok {
+		return nil
+	}
+	w := writesOf(g)
+	initFn := g.Pkg.Func("init")
+	if len(w.whole) == 1 && len(w.fields) == 0 {
+		if w.whole[0].Parent() != initFn {
+			return nil
+		}
+		s := symEval(w.whole[0].Val, nil, depth+1, active)
+		if s != nil && s.Op == "struct" {
+			return s
+		}
+		return nil
+	}
+	if len(w.whole) > 0 {
+		return nil
+	}
+	out := &Sym{Op: "struct", Fields: map[string]*Sym{}}
+	for i := 0; i < st.NumFields(); i++ {
+		sts := w.fields[i]
+		switch {
+		case len(sts) == 0:
+		case len(sts) == 1 && sts[0].Parent() == initFn:
+			out.Fields[fieldName(pt.Elem(), i)] = symEval(sts[0].Val, nil, depth+1, active)
+		default:
+			return nil
+		}
+	}
+	if len(out.Fields) == 0 {
+		return nil
+	}
+	return out
+}
